@@ -24,7 +24,7 @@ CLAIMS = {
             "vtable operation's native recursion passes a depth guard (cycle search in the resolved call graph with "
             "vtable-trampoline modelling); run_block errors leave through the span wrapper; panicking borrow_mut "
             "inventory; bytecode-writer counter pairing. Decides these necessary conditions for every path/site, "
-            "not the behaviour.",
+            "not the behaviour. Added while building / after seeded changes: no dispatch that can reach a panicking RefCell borrow while a DictMut/SetMut is live (R4b), unwrap of a value type test only at reviewed sites (R5), no overflow-checked negation of a value-derived integer (R7), direct slice indexing only with validated indices (R8), a write of the recursion depth always yields the restoring StackGuard (R2b).",
             "Not decided: panics from arithmetic/indexing in builtins, `as` truncations, span containment (runtime "
             "values). Trusted: rustc nightly front end, svfacts printer, call-graph model (trait calls expanded to all "
             "impls of value traits; AValueDyn trampolines -> all impls).",
@@ -34,7 +34,7 @@ CLAIMS = {
             "return via write_return/write_iter_stop) reaches iter_stop on every path; exit by error (run_block Err "
             "arm) must stop open iterators (currently a known finding); list/dict/set acquire-release pairs and "
             "their frozen siblings agree; raw iterate/iter_stop trampolines used only by handlers and the RAII "
-            "StarlarkIterator. Decides these necessary conditions for all paths, not each builtin's behaviour.",
+            "StarlarkIterator. Decides these necessary conditions for all paths, not each builtin's behaviour. Added: no unlocked view of a list's content is live across a call that can run user code (R6).",
             "Not decided: behaviour of every builtin x container combination at run time; mutator-side checks are "
             "claimed under C04. Trusted: rustc front end, svfacts, CFG kernels.",
             "DESIGN.md section 2, C12"),
@@ -43,7 +43,7 @@ CLAIMS = {
             "the resolved call graph) and the loop back edge call report_forward_progress on every path before the "
             "transfer of control and propagate its error; raw invocations occur only under with_call_stack or in "
             "callee-side forwarders; CheapCallStack::push tests the bound before writing; the periodic check consults "
-            "cancellation, heap and tick limits on every Ok path.",
+            "cancellation, heap and tick limits on every Ok path. The push/pop pairing clauses of C07.R1 are also evaluated here (a leaked frame corrupts depth accounting); who-may-call tolerates pure wrappers.",
             "Not decided: boundary arithmetic (>= vs >), tick totals. Trusted: rustc front end, svfacts, call-graph "
             "model.",
             "DESIGN.md section 2, C15"),
@@ -54,7 +54,7 @@ CLAIMS = {
             "possible_gc <- InstrPossibleGc is closed; GC points are emitted only under allow_gc, which is constant "
             "true only for module top-level statements and constant false for def and for bodies; copy protocol "
             "(forward before trace, fill after reserve, old arena outlives the trace); re-entrant evaluation disables "
-            "GC; native recursion through heap_copy (known finding).",
+            "GC; native recursion through heap_copy (known finding). Added after seeded changes: a traced by-value temporary must be written back (R1b); no early-exit iterator adaptor in a trace body (R1c); coverage requires the field to flow into a call, not merely be bound.",
             "Not decided: element-loop bounds, arena bookkeeping, user-stashed values. Trusted: rustc front end, "
             "svfacts, the value-bearing type predicate (type-string based, frozen leaves exempt by type).",
             "DESIGN.md section 2, C03"),
@@ -63,7 +63,7 @@ CLAIMS = {
             "add_reference call dominates the hand-out (three shapes); add_reference inserts on every not-present path; "
             "every OwnedFrozen/OwnedFrozenRef/HeapEdge::unchecked_new is dominated by add_reference or in the reviewed "
             "owner-paired table; into_ref_impl carries refs and arena into the sealed heap and shortcuts only when "
-            "both are empty.",
+            "both are empty. Restated after a seeded change: the only exits of add_reference without insert are 'already present' and 'null heap'.",
             "Not decided: chunk reference counts across drop orders, use-after-free under adversarial histories "
             "(needs execution). Trusted: rustc front end, svfacts, reviewed owner-paired table.",
             "DESIGN.md section 2, C13"),
@@ -75,7 +75,7 @@ CLAIMS = {
             "against the def's declaring module; every external call of a ListData/Array mutator has a receiver that "
             "comes from from_value_mut (check_can_mutate dominated, unfrozen downcast), a fresh allocation, or the "
             "comprehension handler; unchecked accessors have one caller; DictMut/SetMut only from a successful "
-            "try_borrow_mut; UnsafeCell fields of unsafe-Sync types have reviewed complete writer sets.",
+            "try_borrow_mut; UnsafeCell fields of unsafe-Sync types have reviewed complete writer sets. Added after seeded changes: in-place operators (+=, |=) return Ok on the mutable-type arm only after the checked downcast succeeded; generic payload types are substituted before the value-bearing test.",
             "Not decided: value equality before/after freeze, hash stability, atomicity of failed mutations. Trusted: "
             "rustc front end, svfacts, value-bearing type predicate, reviewed writer table.",
             "DESIGN.md section 2, C04"),
@@ -90,7 +90,7 @@ CLAIMS = {
             "unwrap of an evaluation result in the compiler; inlining guards (no *args/**kwargs, safe body, only "
             "parameter locals, untyped defs); assignment counting single-sourced (AtMostOnce only outside loops, Any "
             "on re-assignment, For passes InLoop::Yes); definitely-assigned save/restore pairing, unchecked mov only "
-            "when definitely assigned, conditional operands never marked, param_count counts the slotted parameters.",
+            "when definitely assigned, conditional operands never marked, param_count counts the slotted parameters. Added after seeded changes: the Dict arm of the purity classifiers (pure only when empty), is_iterable_empty needs an iterable builtin constant, param_count counts the slotted parameters, restore after every continuation.",
             "Not decided: that each fold computes the right value; substitution correctness; frozen re-optimisation "
             "equivalence. Trusted: rustc front end, svfacts, call-graph model, sink table.",
             "DESIGN.md section 2, C02"),
@@ -98,7 +98,7 @@ CLAIMS = {
             "One clause only ('enabling more dialect features never rejects an accepted file nor changes its tree'): no "
             "lexer/parser/cursor function reads a Dialect field; around each of the 10 flag tests an error is recorded "
             "only on blocks reachable solely through the disabled edge; every 'not allowed in this dialect' message is "
-            "under such an edge.",
+            "under such an edge. An enum-valued flag tested with `match` is handled by a monotonicity clause over its variants.",
             "Not decided (the bulk of C05): absence of panics in lexer/parser index arithmetic, span containment, "
             "char boundaries - runtime values. Trusted: rustc front end, svfacts.",
             "DESIGN.md section 2, C05"),
@@ -116,7 +116,7 @@ CLAIMS = {
             "Hashing-coherence clauses only: small int / big int / float override the same hash entry points and "
             "funnel through NumRef::get_hash_64 / get_hash, feeding the hasher exactly that u64; every "
             "Hashed::new_unchecked pairs hash and key with a reviewed provenance pair; frozen/unfrozen sibling types "
-            "override the same hash/equality entry points.",
+            "override the same hash/equality entry points. Added: sequence equality compares lengths before zipping (R4).",
             "Not decided: reflexivity/symmetry/transitivity, ordering totality, sort stability. Trusted: reviewed pair "
             "table, rustc front end, svfacts.",
             "DESIGN.md section 2, C09"),
@@ -125,7 +125,7 @@ CLAIMS = {
             "Structural clauses only: StarlarkInt::Big only on the Err edge of InlineInt::try_from (or copies); "
             "InlineInt constructed only at reviewed sites after the range test; no wrapping/overflowing/unchecked/"
             "saturating integer intrinsic in the numeric modules; every StarlarkInt::Small payload comes from a "
-            "checked/closed operation, conversion or constant; float->int casts validated by a round trip.",
+            "checked/closed operation, conversion or constant; float->int casts validated by a round trip. Primitive checked_shl (checks only the shift amount) is part of the intrinsic ban.",
             "Not decided: that each checked fast path / bigint fallback computes the right number (floor semantics, "
             "shift thresholds, string conversion). Trusted: rustc front end, svfacts.",
             "DESIGN.md section 2, C10"),
@@ -134,7 +134,7 @@ CLAIMS = {
             "Two clauses: every SmallMap method that structurally mutates the entry vector maintains the index in the "
             "same body or holds the RebuildIndexOnDrop guard constructed before the mutation (its drop rebuilds); every "
             "duplicate-unchecked insertion is a forwarder, a fresh-container copy/subset of one map/set, dominated by a "
-            "failed lookup, or reviewed.",
+            "failed lookup, or reviewed. Added after a seeded change: every path through SmallMap::clear empties the index, drops it or finds it absent.",
             "Not decided: the index adjustment arithmetic (history property). Trusted: reviewed table, rustc front end.",
             "DESIGN.md section 2, C11"),
     "C14": ("inventories with type-based exemption and reviewed tables: hash-order iteration sites, address accessors, "
@@ -150,7 +150,7 @@ CLAIMS = {
     "C16": ("K3 component coverage of every TypeMatcher::matches body + call-graph funnel reachability",
             "Two clauses: every matcher struct's matches() consults each of its components; isinstance, InstrIsInstance, "
             "InstrCheckType, InstrReturnCheckType, parameter/return checks all reach TypeCompiled::matches, which "
-            "dispatches through the type_matches_value vtable op, called from nowhere else.",
+            "dispatches through the type_matches_value vtable op, called from nowhere else. Added after a seeded change: an element-wise zip in a matcher is guarded by an equality test of the two lengths.",
             "Not decided: that each specialised matcher denotes the documented set. Trusted: rustc front end, svfacts, "
             "call-graph model.",
             "DESIGN.md section 2, C16"),
